@@ -41,6 +41,13 @@ class HarnessGen:
         self.meta = {}             # name -> text mentioning every library type the op touches (calibration uses it)
 
     @staticmethod
+    def decl(i, ct, T, const=True):
+        """declaration of argument a<i> of harness type ct; the abstract model base is bound to a seeded concrete model"""
+        if ct == "PhQ::ConstitutiveModel":
+            return "const auto a%dh = vrt::make<vrt::AnyModel<%s>>(c); const PhQ::ConstitutiveModel& a%d = *a%dh.p;" % (i, T, i, i)
+        return "%sauto a%d = vrt::make<%s>(c);" % ("const " if const else "", i, ct)
+
+    @staticmethod
     def tflag(code):
         """flag bit 4: the op takes text (std::string_view / std::string operands) -- these also run with huge operands"""
         if isinstance(code, (list, tuple)):
@@ -113,7 +120,7 @@ class HarnessGen:
                 return "PhQ::%s<%s>" % (name, argt)
             return None
         if t == "ConstitutiveModel":
-            return "PhQ::ConstitutiveModel"
+            return "PhQ::ConstitutiveModel" if self.model_classes else None    # abstract: arguments are made through vrt::AnyModel
         if t in self.qnames or t in KNOWN_VALUE_TEMPLATES:   # injected class name without <NumericType>
             return "PhQ::%s<%s>" % (t, T)
         return None
@@ -235,6 +242,16 @@ template <class T> struct Maker<PhQ::ConstitutiveModel::IncompressibleNewtonianF
 template <class T> struct Maker<PhQ::ConstitutiveModel::CompressibleNewtonianFluid<T>> { static PhQ::ConstitutiveModel::CompressibleNewtonianFluid<T> make(Ctx& c) {
   if (c.below(2)) return PhQ::ConstitutiveModel::CompressibleNewtonianFluid<T>{vrt::make<PhQ::DynamicViscosity<T>>(c)};
   return PhQ::ConstitutiveModel::CompressibleNewtonianFluid<T>{vrt::make<PhQ::DynamicViscosity<T>>(c), vrt::make<PhQ::BulkDynamicViscosity<T>>(c)}; } };""")
+        if self.model_classes:
+            cases_ = "\n".join("    case %d: return AnyModel<T>{std::make_shared<const PhQ::%s<T>>(vrt::make<PhQ::%s<T>>(c))};" % (i, m, m) for i, m in enumerate(self.model_classes))
+            o.append("""
+// an argument of the abstract base type: a seeded concrete model behind a pointer to the base
+template <class T> struct AnyModel { std::shared_ptr<const PhQ::ConstitutiveModel> p; };
+template <class T> struct Maker<AnyModel<T>> { static AnyModel<T> make(Ctx& c) {
+  switch (c.below(%d)) {
+%s
+  }
+  return AnyModel<T>{std::make_shared<const PhQ::%s<T>>(vrt::make<PhQ::%s<T>>(c))}; } };""" % (len(self.model_classes), cases_, self.model_classes[0], self.model_classes[0]))
         o.append("struct Registrar { Registrar(const OpEntry* e, int n) { register_ops(e, n); } };")
         o.append("struct RegistrarInline { RegistrarInline(const OpEntry* e, int n) { register_ops_inline(e, n); } };")
         o.append("}  // namespace vrt")
@@ -268,9 +285,9 @@ template <class T> struct Maker<PhQ::ConstitutiveModel::CompressibleNewtonianFlu
                 flags |= 1
                 post.append("vrt::consume(c, static_cast<int>(c.os->rdstate()));")
                 continue
-            if ct == "PhQ::ConstitutiveModel":
+            if ct == "PhQ::ConstitutiveModel" and p["mutable_ref"]:
                 return None
-            pre.append("auto a%d = vrt::make<%s>(c);" % (i, ct))
+            pre.append(self.decl(i, ct, T, const=False))
             args.append("a%d" % i)
             if p["mutable_ref"]:
                 post.append("vrt::consume(c, a%d);" % i)
@@ -403,10 +420,10 @@ template <class T> struct Maker<PhQ::ConstitutiveModel::CompressibleNewtonianFlu
                     continue
                 seen.add(name)
                 if cts[0] == "std::ostream":
-                    code = "const auto a1 = vrt::make<%s>(c); { vrt::Count k; (*c.os) %s a1; } vrt::consume(c, static_cast<int>(c.os->rdstate()));" % (cts[1], op)
+                    code = "%s { vrt::Count k; (*c.os) %s a1; } vrt::consume(c, static_cast<int>(c.os->rdstate()));" % (self.decl(1, cts[1], T), op)
                     flags = 1
                 else:
-                    code = "const auto a0 = vrt::make<%s>(c); const auto a1 = vrt::make<%s>(c); auto r = [&]() -> decltype(auto) { vrt::Count k; return (a0 %s a1); }(); vrt::consume(c, r);" % (cts[0], cts[1], op)
+                    code = "%s %s auto r = [&]() -> decltype(auto) { vrt::Count k; return (a0 %s a1); }(); vrt::consume(c, r);" % (self.decl(0, cts[0], T), self.decl(1, cts[1], T), op)
                     flags = 0
                 cases.append("    case %d: { %s break; }" % (k, code))
                 entries.append('  {"%s", &ops_%s_%s, %d, %d},' % (name, short, TSHORT[T], k, flags | self.tflag(code)))
@@ -580,7 +597,7 @@ template <class T> struct Maker<PhQ::ConstitutiveModel::CompressibleNewtonianFlu
                 if not self.admit(name):
                     continue
                 k = len(cases)
-                pre = " ".join("const auto a%d = vrt::make<%s>(c);" % (i, t) for i, t in enumerate(types))
+                pre = " ".join(self.decl(i, t, T) for i, t in enumerate(types))
                 cases.append("    case %d: { %s auto r = [&] { vrt::Count k; return %s; }(); vrt::consume(c, r); break; }" % (
                     k, pre, call % tuple("a%d" % i for i in range(len(types)))))
                 entries.append('  {"%s", &ops_freefn_%s, %d, %d},' % (name, TSHORT[T], k, self.tflag(pre)))
@@ -689,7 +706,7 @@ template <class T> struct Maker<PhQ::ConstitutiveModel::CompressibleNewtonianFlu
                     k = len(cases)
                     if not self.admit("%s<%s>|virtual:%s" % (mc, TSHORT[T], self.sig(mem))):
                         continue
-                    pre = " ".join("const auto a%d = vrt::make<%s>(c);" % (i, ct) for i, ct in enumerate(cts))
+                    pre = " ".join(self.decl(i, ct, T) for i, ct in enumerate(cts))
                     call = "base.%s(%s)" % (mem["name"], ", ".join("a%d" % i for i in range(len(cts))))
                     cases.append("    case %d: { const auto model = vrt::make<PhQ::%s<%s>>(c); const PhQ::ConstitutiveModel& base = model; %s auto r = [&] { vrt::Count k; return %s; }(); vrt::consume(c, r); break; }" % (k, mc, T, pre, call))
                     name = "%s<%s>|virtual:%s" % (mc, TSHORT[T], self.sig(mem))
